@@ -184,6 +184,14 @@ M("C17", "decorator-swaps-lists", "iodata/docstrings.py", r"        func\.guaran
 T("C17", "factory-returns-through-local", "iodata/docstrings.py", r"    return _document_load\(LOAD_MANY_DOC_TEMPLATE, fmt, guaranteed, ifpresent, kwdocs, notes\)", "    deco_ = _document_load(LOAD_MANY_DOC_TEMPLATE, fmt, guaranteed, ifpresent=ifpresent, kwdocs=kwdocs, notes=notes)\n    return deco_")
 M("C08", "dump-many-checks-dump-one-list-through-local", "iodata/api.py", r"        _check_required\(filename, first, format_module\.dump_many\)", "        op_ = format_module.dump_one\n        _check_required(filename, first, op_)", "C08-R8")
 T("C08", "dump-many-checks-through-local", "iodata/api.py", r"        _check_required\(filename, first, format_module\.dump_many\)", "        op_ = format_module.dump_many\n        _check_required(filename, first, op_)")
+# ----------------------------------------------------------------------------- C06: whole-function relations
+M("C06", "pure-columns-reversed", "iodata/overlap.py", r"shell_overlap = np\.dot\(shell_overlap, tfs\[shell1\.angmoms\[0\]\]\.T\)", "shell_overlap = np.dot(shell_overlap, tfs[shell1.angmoms[0]].T[:, ::-1])", "C06-R5")
+M("C06", "product-centre-on-first-centre", "iodata/overlap.py", r"rn = \(a0_r0 \+ a1 \* r1\) / at", "rn = (a0_r0 + a1 * r0) / at", "C06-R10")
+M("C06", "second-basis-not-segmented", "iodata/overlap.py", r"        # Get a segmented basis, for simplicity\n        obasis1 = convert_to_segmented\(obasis1\)\n", "", "C06-R4")
+M("C06", "segmentation-keeps-sp", "iodata/overlap.py", r"    obasis0 = convert_to_segmented\(obasis0\)\n", "    obasis0 = convert_to_segmented(obasis0, True)\n", "C06-R4")
+M("C06", "missing-geometry-falls-back", "iodata/overlap.py", r"        if atcoords1 is None:\n            raise TypeError\(\n                \"When a second basis is given, a second second \"\n                \"array of atomic coordinates is expected\.\"\n            \)\n", "        if atcoords1 is None:\n            atcoords1 = atcoords0\n", "C06-R2")
+M("C06", "column-offset-not-advanced-for-s", "iodata/overlap.py", r"            begin1 = end1\n", "            begin1 = end1 if shell1.nbasis > 1 else begin1\n", "C06-R14")
+T("C06", "dispatch-in-a-helper", "iodata/overlap.py", r"        obasis1 = obasis0\n        atcoords1 = atcoords0\n        identical = True\n", "        obasis1, atcoords1, identical = _same(obasis0, atcoords0)\n", also=[(r"\nclass GaussianOverlap:", "\ndef _same(obasis, atcoords):\n    return obasis, atcoords, True\n\n\nclass GaussianOverlap:")])
 # ----------------------------------------------------------------------------- C14
 M("C14", "segmented-reversed", "iodata/convert.py", r"    for shell in obasis\.shells:\n        if \(shell\.ncon == 1\)", "    for shell in reversed(obasis.shells):\n        if (shell.ncon == 1)", "C14-R1")
 M("C14", "segmented-wrong-exponents", "iodata/convert.py", r"Shell\(shell\.icenter, \[angmom\], \[kind\], shell\.exponents, coeffs\.reshape\(-1, 1\)\)", "Shell(shell.icenter, [angmom], [kind], shell.exponents[::-1], coeffs.reshape(-1, 1))", "C14-R1")
